@@ -13,37 +13,37 @@ import (
 
 // Exec symbolically executes one function (one contract case) and collects obligations.
 type Exec struct {
-	P        *Program
-	VC       *VC
-	Top      *ssa.Function
-	TopName  string
-	Spec     *FuncSpec
-	Case     *Case
-	Props    []string
-	initHeap map[string]*Term
-	oblOrd   map[string]int    // (kind|expr) -> count of distinct sites
-	siteOrd  map[string]int    // site key -> ordinal
-	depth    int
-	stack    []*ssa.Function
-	Entry    *State
-	params   map[string]Value
-	typeTags map[string]int64
-	tagTypes map[int64]types.Type
-	strLits  map[string]SliceV
-	globals  map[string]Value
-	inlinePath string
-	noOblige int // >0: suppress obligations (used when evaluating assumed contracts)
-	curPos   token.Pos
-	epoch    int
-	quietInv map[string]bool
-	topRets  []retPoint
-	globalObjs map[string]*ssa.Global
-	epochNext map[int]*Term
+	P             *Program
+	VC            *VC
+	Top           *ssa.Function
+	TopName       string
+	Spec          *FuncSpec
+	Case          *Case
+	Props         []string
+	initHeap      map[string]*Term
+	oblOrd        map[string]int // (kind|expr) -> count of distinct sites
+	siteOrd       map[string]int // site key -> ordinal
+	depth         int
+	stack         []*ssa.Function
+	Entry         *State
+	params        map[string]Value
+	typeTags      map[string]int64
+	tagTypes      map[int64]types.Type
+	strLits       map[string]SliceV
+	globals       map[string]Value
+	inlinePath    string
+	noOblige      int // >0: suppress obligations (used when evaluating assumed contracts)
+	curPos        token.Pos
+	epoch         int
+	quietInv      map[string]bool
+	topRets       []retPoint
+	globalObjs    map[string]*ssa.Global
+	epochNext     map[int]*Term
 	lastChanField string
-	curInstr ssa.Instruction
-	sidSeen  map[*Term]bool
-	curNode  *node
-	lastNodes []*node
+	curInstr      ssa.Instruction
+	sidSeen       map[*Term]bool
+	curNode       *node
+	lastNodes     []*node
 }
 
 // ancestorsOf returns every DAG node through which an execution reaching node t may have passed.
@@ -174,12 +174,12 @@ func (x *Exec) objSet(st *State, key string, obj, val *Term) {
 
 // writeRec records one write to a heap component (for frame obligations discharged per write).
 type writeRec struct {
-	key          string
-	obj, lo, hi  *Term // lo/hi: absolute element index range [lo,hi) for element arrays; nil = the whole object / cell
-	guard        *Term
-	epoch        int
-	fresh        bool // object allocated in this activation
-	allocEpoch   int
+	key         string
+	obj, lo, hi *Term // lo/hi: absolute element index range [lo,hi) for element arrays; nil = the whole object / cell
+	guard       *Term
+	epoch       int
+	fresh       bool // object allocated in this activation
+	allocEpoch  int
 }
 
 func (x *Exec) recordWrite(st *State, key string, obj, lo, hi *Term) {
@@ -432,19 +432,19 @@ type loopInfo struct {
 }
 
 type node struct {
-	b      *ssa.BasicBlock
-	iter   int
-	in     []*edge
-	out    []*edge
-	guard  *Term
-	env    map[ssa.Value]Value
-	st     *State
-	done   bool
-	idx    int
-	dead   bool
+	b         *ssa.BasicBlock
+	iter      int
+	in        []*edge
+	out       []*edge
+	guard     *Term
+	env       map[ssa.Value]Value
+	st        *State
+	done      bool
+	idx       int
+	dead      bool
 	cutProved bool
-	parent *node   // caller node (for the entry node of an inlined callee)
-	extra  []*node // nodes of callees inlined while executing this node
+	parent    *node   // caller node (for the entry node of an inlined callee)
+	extra     []*node // nodes of callees inlined while executing this node
 }
 
 type edge struct {
@@ -500,17 +500,17 @@ func findLoops(fn *ssa.Function) []*loopInfo {
 }
 
 type funcCtx struct {
-	fn     *ssa.Function
-	loops  []*loopInfo
-	inLoop map[*ssa.BasicBlock]*loopInfo // innermost unrolled loop containing block
-	cutHdr map[*ssa.BasicBlock]*loopInfo
-	cuts   map[*ssa.BasicBlock]*Clause
-	clauses []*Clause
-	top    bool
+	fn         *ssa.Function
+	loops      []*loopInfo
+	inLoop     map[*ssa.BasicBlock]*loopInfo // innermost unrolled loop containing block
+	cutHdr     map[*ssa.BasicBlock]*loopInfo
+	cuts       map[*ssa.BasicBlock]*Clause
+	clauses    []*Clause
+	top        bool
 	atcallSeen map[*Clause]bool
 	entryGuard *Term
-	rets   []retPoint
-	path   string
+	rets       []retPoint
+	path       string
 }
 
 // runFunc symbolically executes fn from state st under guard. Returns merged results/state/guard at return.
